@@ -26,6 +26,11 @@ CLAIMED = {
         technique="TLA+ model of the HNSW beam search (MC_HnswBeam.tla) model-checked by TLC over every small graph / entry / ef / visiting order for the result-set lemma; histories on the real HnswIndex (proximity graph via a cfg(grafeo_verif) hook), quantised indexes, GrafeoDB::vector_search, brute_force_knn, distance kernels and quantisers validated by TLC against Hnsw.tla",
         text="Design: result within the reachable set R, |result| = min(ef,|R|), exact when ef >= |R| (all graphs on 3 (quick) / 4 (thorough) nodes). Code: for every search of the recorded histories TLC recomputes the greedy descent and R from the dumped graph and checks at most k distinct present ids, true distance under the metric, sorted, count = min(k,|R|), exactly the k nearest of R when max(ef,k) >= |R|, batch = one-by-one; removed ids never returned (no dangling links after every mutation); brute_force_knn exact; kernels = definitions for dims 1..40; quantiser contracts.",
         note="Integer-coordinate vectors only (exact arithmetic); extreme magnitudes / NaN are not covered. Quantised indexes are checked without the graph-derived count. zone maps, mmap storage and query-language vector operators are out of scope."),
+    "C17": dict(
+        engine="exec", category="exploration", design_ref="DESIGN.md §7 C17",
+        technique="TLA+ sequential semantics of operator pipelines (ExecSem.tla) evaluated by TLC as the oracle for every recorded run of the same pipeline under pull, push (chunk sizes), spilling (thresholds) and parallel (workers x morsel sizes) execution, and for the parallel merge helpers on partitioned tables",
+        text="Generated tables (0..25 rows with NULLs and duplicates; 1023..4097 rows around morsel / chunk boundaries; key column as int, string, timestamp, float, bool, mixed numeric) x pipelines (filters, projection, distinct, sort with NULL placement and direction, global / grouped aggregates, limit / skip) x execution modes. TLC computes Seq(ops, table) and compares every run (sequence equality; bags for parallel runs and aggregates); large tables are checked for agreement of all modes. Spill directory must be empty afterwards. merge_sorted_runs / merge_sorted_chunks / merge_distinct_results / MergeableAccumulator / fold helpers / generate_morsels are checked against the same definitions.",
+        note="Worker thread schedules are sampled by repetition, not enumerated. Joins, adaptive execution, async spill and graph scan sources are not covered."),
     "C07": dict(
         engine="txn", category="model_checking", design_ref="DESIGN.md §7 C07",
         technique="copies (import(export), to_memory, save+open, open_in_memory) logged after every action of multi-session histories and validated by TLC against Mvcc.tla (mechanism enumeration or committed graph); plus bit-exact value-fidelity checks and child-process enumeration of truncated / bit-flipped snapshots",
@@ -101,6 +106,8 @@ CLAIMED = {
 REASON_PENDING = "not claimed yet in this round: specification and conformance binding for this property are designed (DESIGN.md §7) but not built; no check is registered rather than an unsound one"
 
 ENGINES = [
+    dict(name="exec", path="spec/exec", serves_properties=["C17"],
+         kind_free_text="TLA+ ExecSem.tla (sequential meaning of operator pipelines + merge-helper definitions) evaluated by TLC; harness `gv exec` runs pull / push / spill / parallel modes"),
     dict(name="vector", path="spec/vector", serves_properties=["C18"],
          kind_free_text="TLA+ Hnsw.tla (search contract over the layered proximity graph), MC_HnswBeam.tla (beam search state machine), Trace_Hnsw.tla checked by TLC; harness `gv vec` + hook HnswIndex::verif_dump"),
     dict(name="misc", path="spec/misc", serves_properties=["C15", "C16", "C19"],
